@@ -43,6 +43,8 @@ def run(ctx, tier):
     ctx.rule("T6", "the Windows-drive-letter tests accept exactly the Standard's bytes at each index")
     ctx.rule("T7", "prune_hash cuts at the first '#', trim_c0_whitespace trims both ends, shorten_path keeps the file "
                    "drive-letter exception")
+    ctx.rule("T8", "spellings the Standard fixes inside a parser state (\"%40\", \"localhost\", \"%20\") are the ones used there; the "
+                   "password starts at the first ':' of the credentials")
     ctx.rule("S4", "in each state of the parser the set of URL components that the state's code sets equals the set the "
                    "Standard's state sets (both storing instantiations)")
     ctx.rule("S2", "direct failure exits of the parser fail under the flags the Standard names (atSignSeen for the empty authority)")
@@ -63,6 +65,7 @@ def run(ctx, tier):
         HS.check_dot_segments(ctx, fxs[name], "T5")
         HS.check_drive_letters(ctx, fxs[name], "T6")
         HS.check_shapes(ctx, fxs[name], "T7")
+        HS.check_parser_literals(ctx, fxs[name], "T8")
         from rules import c01_failctx
         c01_failctx.check(ctx, fxs[name], "S2")
         from rules import lowercase
